@@ -535,6 +535,15 @@ func fuzz(r *rand.Rand, par, n int, only string) {
 			add(c)
 		}
 	}
+	if only != "fuzz" {
+		// every instruction x valid immediates in unreachable code: must be accepted and compiled, then called
+		per := 40
+		for i, dc := range deadCodeModules(per) {
+			c := mkCase(fmt.Sprintf("dead-code-%d", i), "dead-code", dc.feat, dc.bin, dc.rule)
+			c.MustAccept = true
+			add(c)
+		}
+	}
 	if only != "gen" {
 		// unmutated repository modules (distribution baseline; big ones compile-only)
 		for i, s := range small {
